@@ -39,6 +39,25 @@ CLS_OF_STEM = {'StructureType': 'CStructure', 'UnionType': 'CUnion', 'DelimitedT
 KIND_COQ = {'structure': 'KStructure', 'union': 'KUnion', 'delimited': 'KDelimited', 'service': 'KService'}
 SUPPORT_TPL = {'c': ['serialization.j2'], 'cpp': ['serialization.j2'], 'py': ['nunavut_support.j2'], 'html': []}
 ANY_J2 = 'generated for {{ T.full_name }}\n'
+# nested template directories with the same basename in several sub-directories, all loaded by relative path from the
+# language's base template (include, include from an included file, macro import)
+BASE_TPL = {'c': 'base.j2', 'cpp': 'base.j2', 'py': 'base.j2', 'html': 'type_base.j2'}
+NESTED_FILES = {
+    'tpl/body.j2': 'top level body\n',
+    'tpl/message/body.j2': 'message body\n{% include "message/deep/body.j2" %}\n',
+    'tpl/message/deep/body.j2': 'deep message body\n',
+    'tpl/service/body.j2': '{% macro svc_body() %}service body macro{% endmacro %}\n',
+    'tpl/service/unused/body.j2': 'never loaded\n',
+}
+NESTED_APPEND = ('\n{% include "message/body.j2" %}\n{% from "service/body.j2" import svc_body %}{{ svc_body() }}\n'
+                 '{% include "body.j2" %}\n')
+NESTED_PROBES = [
+    {'id': 'tpl:nested', 'path': 'tpl/message/body.j2', 'append': 'probe line\n'},
+    {'id': 'tpl:nested', 'path': 'tpl/message/deep/body.j2', 'append': 'probe line\n'},
+    {'id': 'tpl:nested', 'path': 'tpl/service/body.j2', 'text': '{% macro svc_body() %}service body macro probe{% endmacro %}\n'},
+    {'id': 'tpl:nested', 'path': 'tpl/body.j2', 'append': 'probe line\n'},
+    {'id': 'tpl:nested-unused', 'path': 'tpl/service/unused/body.j2', 'append': 'probe line\n'},
+]
 
 
 # ---------------------------------------------------------------------------------------------
@@ -114,7 +133,7 @@ def make_case(rng, idx: int, forced: typing.Optional[dict] = None) -> dict:
     mode = f.get('mode', MODES[(idx // 4) % 4])
     omit = f.get('omit', rng.random() < (0.25 if mode == 'always' else 0.4))
     ns_types = f.get('ns_types', rng.random() < 0.4)
-    tpl = f.get('tpl', rng.choice([None, None, 'copy', 'copy+any', 'copy+extra']))
+    tpl = f.get('tpl', rng.choice([None, None, 'copy', 'copy+any', 'copy+extra', 'copy+nested', 'copy+nested']))
     if ns_types and lang in ('c', 'cpp') and 'tpl' not in f and rng.random() < 0.7:
         tpl = 'copy+any'
     sup = f.get('sup', rng.choice([None, None, None, 'other', 'shadow']))
@@ -133,6 +152,7 @@ def job_of(case: dict, work: str, rng) -> dict:
         files[type_rel(t, 'lk')] = dsdl_text(t)
     lang = case['lang']
     copies, inventory = [], []
+    appends: typing.Dict[str, str] = {}
     args = ['-l', lang] + (['-Xlang'] if lang in ('cpp', 'html') else []) + ['--generate-support', case['mode']]
     if case['omit']:
         args.append('--omit-serialization-support')
@@ -149,6 +169,9 @@ def job_of(case: dict, work: str, rng) -> dict:
         if case['tpl'] == 'copy+extra':
             files['tpl/extra/Unused.j2'] = 'never used\n'
             files['tpl/notes.txt'] = 'not a template\n'
+        if case['tpl'] == 'copy+nested':
+            files.update(NESTED_FILES)
+            appends['tpl/' + BASE_TPL[lang]] = NESTED_APPEND
         args += ['--templates', 'tpl']
         inventory.append('tpl')
     if case['sup']:
@@ -157,6 +180,8 @@ def job_of(case: dict, work: str, rng) -> dict:
             files['sup/readme.txt'] = 'x\n'
         else:
             files['sup/other.j2'] = 'unrelated\n'
+            files['sup/a/part.j2'] = 'unrelated a\n'
+            files['sup/b/part.j2'] = 'unrelated b\n'
         args += ['--support-templates', 'sup']
         inventory.append('sup')
     root_dir = 'ns/' + case['roots'][0]['ns'][0]
@@ -178,12 +203,14 @@ def job_of(case: dict, work: str, rng) -> dict:
         if case['sup'] == 'shadow' and SUPPORT_TPL[lang]:
             cands.append({'id': 'sup:shadow', 'path': 'sup/' + SUPPORT_TPL[lang][0], 'append': '\nprobe line\n'})
         if case['sup'] == 'other':
-            cands.append({'id': 'sup:other', 'path': 'sup/other.j2', 'append': 'probe\n'})
+            cands.append({'id': 'sup:other', 'path': rng.choice(['sup/other.j2', 'sup/a/part.j2', 'sup/b/part.j2']), 'append': 'probe\n'})
         rng.shuffle(cands)
         probes = cands[:case.get('n_probes', 2)]
+        if case['tpl'] == 'copy+nested':      # every nested file is edited once
+            probes = [dict(p) for p in NESTED_PROBES] + probes[:1]
     elif isinstance(case['probes'], list):
         probes = case['probes']
-    return {'work': work, 'files': files, 'copies': copies, 'args': args, 'root': root_dir, 'lookups': lk_dirs, 'probes': probes,
+    return {'work': work, 'files': files, 'appends': appends, 'copies': copies, 'args': args, 'root': root_dir, 'lookups': lk_dirs, 'probes': probes,
             'inventory': inventory, 'want_trace': True}
 
 
@@ -315,6 +342,9 @@ def witness_cases() -> typing.List[dict]:
         # the repaired F-LIST-ONLY-POD must stay repaired
         dict(base, lang='c', mode='only', omit=True, tpl=None, sup=None, types=plain_types(), tag='fixed:F-LIST-ONLY-POD', probes=[]),
         dict(base, lang='c', mode='always', omit=True, tpl=None, sup=None, types=plain_types(), tag='rejected', probes=[]),
+        # nested custom template directories with duplicate basenames, every file edited once
+        dict(base, lang='c', mode='never', tpl='copy+nested', sup=None, types=plain_types(), tag='nested-templates', probes='auto'),
+        dict(base, lang='py', mode='as-needed', tpl='copy+nested', sup='other', types=plain_types(), tag='nested-templates', probes='auto'),
     ]
 
 
@@ -342,7 +372,7 @@ def category(path: str, work: str, root_dir: str) -> str:
 # ---------------------------------------------------------------------------------------------
 def main(chk: core.Check, replay: typing.Optional[str] = None) -> int:
     known_entries(chk)
-    n_random = 43 if chk.tier == 'quick' else 300
+    n_random = 41 if chk.tier == 'quick' else 300
     rng = chk.rng
     cases = [make_case(rng, i, forced=w) for i, w in enumerate(witness_cases())]
     if replay:
@@ -354,11 +384,14 @@ def main(chk: core.Check, replay: typing.Optional[str] = None) -> int:
         cases.append(make_case(rng, len(cases)))
 
     # 1. proof obligations against the regenerated translation
-    res = core.coq_check('C08', ['listing'])
+    res = core.coq_check('C08', ['listing', 'pin_c08_enum'])
     chk.proof_coverage(res, [
         'translator tools/translators/gen_c08.py (statement structure and call arguments of ArgparseRunner.run/_list_outputs_only/'
         '_list_inputs_only/_generate, _should_generate_support, _post_process_args, namespace-type decision, SupportGenerator.get_templates, '
         'dry-run guards; structural checks of the generate_all loops; package data read from the tree)',
+        'shape pin c08_enum (tools/translators/shape_pin.py): normalised AST of DSDLTemplateLoader.__init__/get_source/get_templates/'
+        '_filter_template_list_by_suffix, CodeGenerator.get_templates, SupportGenerator.get_templates/_get_templates_by_support_type, '
+        'Language.get_support_files, iter_package_resources -- the enumeration logic the hand model describes',
         'hand model Gen/Listing.v of namespace index, output paths, loader chains and support resources, tied by the correspondence run',
         'template loads are measured by wrapping DSDLTemplateLoader.get_source in the harness; DSDL dependencies are read from pydsdl',
         'model evaluation: Eval vm_compute in generated case files (no extraction)',
